@@ -1232,3 +1232,29 @@ Proof.
   - discriminate Fo.
   - destruct (Io 7 None (or_introl eq_refl)) as [t [E _]]. discriminate E.
 Qed.
+
+(* ====================================================================== *)
+(* round 2: the widened tracker model (C09/TrackerX.v: max_tracks, name checks,
+   optical-flow tracker) keeps identities whenever the cap is never binding *)
+From SV Require Import C09.TrackerX C09.LemmasX.
+
+Theorem identity_preserved_widened : forall X h,
+  names_ok X = true -> fix_iv X = false -> cap_asis_or_none X ->
+  fix_i (base X) = true -> fix_ii (base X) = true -> 1 <= window (base X) ->
+  Forall (scene_hyp_repaired (base X)) (trace10 (base X) init [] h) ->
+  Forall (cap_silent X) (trace (base X) init h) ->
+  xrun X h = run (base X) h /\
+  exists track_of : owners,
+    NoDup (map fst track_of) /\ NoDup (map snd track_of) /\
+    length (xrun X h) = length h /\
+    Forall (fun x => identity_step x track_of) (trace10 (base X) init [] h).
+Proof.
+  intros X h Hn Hiv Hcap F1 F2 Hw H HS.
+  assert (HC : Forall (contract_step (base X)) (trace (base X) init h)).
+  { rewrite <- (trace10_trace (base X) h init []). apply Forall_map.
+    eapply Forall_impl; [|exact H]. intros x (_ & C & _). exact C. }
+  assert (E : xrun X h = run (base X) h).
+  { unfold xrun, run. rewrite xrun_trace, run_trace.
+    rewrite (xtrace_eq_trace_base X Hn Hiv Hcap h init (Inv_init _) HC HS). reflexivity. }
+  split; [exact E|]. rewrite E. apply identity_preserved_repaired; auto.
+Qed.
